@@ -629,4 +629,56 @@ theorem close_without_retest_crashes : ∃ s, CloseFine.runNoTest {} [.call, .ca
     .unlock, .lock, .test, .latch, .shutSend, .shutConn, .post, .unlock] = some s ∧ s.closePanics = 2 ∧ s.connCloses = 2 ∧ s.removes = 2 := by
   refine ⟨_, rfl, ?_⟩; decide
 
+/-! ### kick requests through a custom kick handler (`ClientSessions.Kick` / `IKickHandler` / `DoKick`) -/
+
+/-- **a kick still ends with the removal, also through a kick handler**: for a registered connection (entry under its own id, ids
+not shared) `Kick(id)` closes that connection's session (no handler) or hands the handler that id; the handler's later
+`DoKick(id)` closes that same connection's session and leaves the table as it was, so the `RemoveSession` the Close posts
+finds the entry: it is deleted, the registered close callback runs once, then the sessions' callback - and afterwards the id
+is gone. -/
+theorem kick_handler_path_still_removes (o : Own) (h : Hnd) (idOf : Nat → Nat) (ha : o.Agree idOf)
+    (hinj : ∀ k k', idOf k = idOf k' → k = k') (k cb : Nat) (hl : (idOf k, k) ∈ o.live) :
+    o.kick false (idOf k) = .close k ∧ o.kick true (idOf k) = .handler (idOf k) ∧
+    (o.doKick (idOf k)).2 = some k ∧
+    (removeSession (o.doKick (idOf k)).1 (h.register (idOf k) cb) (idOf k) false).2.2 =
+      { conn := some k, handlerCb := some cb, sessionsCb := true } ∧
+    (removeSession (o.doKick (idOf k)).1 (h.register (idOf k) cb) (idOf k) false).1.lookup (idOf k) = none := by
+  have hlk : o.lookup (idOf k) = some k := by
+    rcases Own.lookup_own o idOf ha hinj k with h' | h'
+    · exact absurd hl (Own.lookup_none h' k)
+    · exact h'
+  refine ⟨by simp [Own.kick, hlk], by simp [Own.kick, hlk], by simp [Own.doKick, hlk], ?_, ?_⟩
+  · exact (close_callbacks_run_once o h idOf ha hinj k cb hl).1
+  · have hgone := Own.lookup_after_remove o idOf ha hinj k hl
+    have hr : (o.remove (idOf k)).2 = some k := (Own.remove_own o idOf ha hinj k hl).1
+    have hrm : o.remove (idOf k) = ((o.remove (idOf k)).1, some k) := by rw [← hr]
+    show (removeSession o (h.register (idOf k) cb) (idOf k) false).1.lookup (idOf k) = none
+    unfold removeSession
+    rw [hrm]
+    exact hgone
+
+/-- non-vacuity: one registered connection, its callback registered -/
+example : (({ counter := 6, live := [(5, 1)] } : Own).doKick 5).2 = some 1 ∧
+    (removeSession (({ counter := 6, live := [(5, 1)] } : Own).doKick 5).1 (({} : Hnd).register 5 1) 5 false).2.2 =
+      { conn := some 1, handlerCb := some 1, sessionsCb := true } := by decide
+
+/-- a kick request or a delayed `DoKick` for an id nobody holds (never given out, or removed meanwhile: the client left between
+the notice and the `DoKick`) reaches nobody -/
+theorem kick_of_unregistered_id_reaches_nobody (o : Own) (kh : Bool) (id : Nat) (hn : o.lookup id = none) :
+    o.kick kh id = .miss ∧ (o.doKick id).2 = none ∧ (o.doKick id).1 = o := by
+  simp [Own.kick, Own.doKick, hn]
+
+/-- **defect witness (DoKick takes the entry out of the table itself)**: whatever the table holds, if `DoKick` deletes the entry
+before it closes the session, the `RemoveSession` posted by that Close finds nothing: the handler is never told of the removal
+and no close callback runs - session-added without session-removed. -/
+theorem dokick_deleting_entry_loses_remove (o : Own) (h : Hnd) (id k : Nat) (p : Bool) (hl : o.lookup id = some k) :
+    (o.doKickDeleting id).2 = some k ∧ (removeSession (o.doKickDeleting id).1 h id p).2.2 = {} := by
+  have h1 : o.doKickDeleting id = ({ o with live := o.live.filter (fun q => q.1 != id) }, some k) := by
+    simp [Own.doKickDeleting, hl]
+  rw [h1]
+  refine ⟨rfl, ?_⟩
+  have h2 : ({ o with live := o.live.filter (fun q => q.1 != id) } : Own).lookup id = none := by
+    simp only [Own.lookup, Hnd.lookup_filter_self, Option.map_none]
+  simp only [removeSession, Own.remove, h2]
+
 end Cell2v.Props.C05
